@@ -10,11 +10,12 @@ from .common import (EXIT_INCONCLUSIVE, Timer, log, match_known, save_replay, se
 from .e1check import E1Outcome, e1_coverage, finish, run_parser_groups, run_svob_only
 
 ASSUMPTIONS = [
-    "K19.1: the range-negation loop of GrammarBuilder::negated_token_ranges is cut out of /repo's current source; the `sorted.sort_by_key` call is removed (std's sort does not terminate under CBMC) and the harness supplies ranges ordered by start; ensure!(..) guards are rewritten to early returns (error construction through anyhow/format! is out of CBMC's reach); <= 3 ranges, every u32 vocabulary size",
+    "K19.1: the range-negation loop of GrammarBuilder::negated_token_ranges is cut out of /repo's current source; the `sorted.sort_by_key` call is removed (std's sort does not terminate under CBMC) and the harness supplies ranges ordered by start; ensure!(..) guards are rewritten to early returns (error construction through anyhow/format! is out of CBMC's reach); <= 2 ranges in the quick tier, <= 3 in the thorough tier (the 3-range instance needs ~40 GB and ~15 min under CBMC and runs alone), every u32 vocabulary size",
     "K19.2: LexemeSpec::contains_token on a spec literal with <= 3 symbolic ranges (parse_numeric_token is NOT decided: str::from_utf8 + str::parse::<u32> hit the 600 s cap under CBMC)",
+    "K19.4: the statements of ParserState::compute_bias after the trie walk (bare-marker removal, token ranges of the live token-range lexemes through allow_range, EOS), cut from the current source and run in a mock parser state: 40-token mask with symbolic content, symbolic marker / EOS ids, 0-2 live token-range lexemes with one symbolic range each, symbolic flush_lexer() / lexer_allows_eos() answers, start empty or not. Result bit t == (walk bit and t is not the bare marker) or (start empty, flushed, t in a live range) or (t is EOS, start empty, EOS allowed). Which lexemes are live and what the walk leaves is the parser's and is outside",
     "K16.1 (shared with C16): SimpleVob::allow_range on 1..3 word vectors with symbolic previous content and symbolic inclusive range: exactly the bits of the range are added",
     "E2-19.4: for every exported text lexeme automaton and every byte string of <= 5 bytes that contains 0xFF: the run is dead (special-token lexemes and ~-complement lexemes, which the documentation says may match invalid UTF-8, are excepted)",
-    "outside the claim: add_numeric_token / flush_and_check_numeric at run time, removal of the bare marker token from masks, position sensitivity of <[...]> in the grammar, marker-aware tokenisation (tokenize_bytes_marker needs greedy_tokenize: out of memory under CBMC)",
+    "outside the claim: add_numeric_token / flush_and_check_numeric at run time, position sensitivity of <[...]> in the grammar, marker-aware tokenisation (tokenize_bytes_marker needs greedy_tokenize: out of memory under CBMC)",
 ]
 
 
@@ -87,10 +88,15 @@ def run():
     tm = Timer()
     out = E1Outcome()
     t, sd = tier(), seed()
-    specs = pp.specs("builder", "c19", "c19_fail") + pp.specs("lexerspec", "c19")
-    if t == "quick":
-        specs = [s for s in specs if "ranges_n3" not in s["name"]]
-    info = run_parser_groups("C19", "c19", ["builder", "lexerspec"], specs, out, harness_timeout_s=900)
+    specs = pp.specs("builder", "c19", "c19_fail") + pp.specs("lexerspec", "c19") + pp.specs("parser", "c19", "c19_fail")
+    # three symbolic ranges need ~40 GB and ~15 min under CBMC: thorough tier only, alone, after the main batch
+    big = [s for s in specs if "ranges_n3" in s["name"]]
+    specs = [s for s in specs if "ranges_n3" not in s["name"]]
+    info = run_parser_groups("C19", "c19", ["builder", "lexerspec", "parser"], specs, out, harness_timeout_s=900)
+    if t != "quick" and big:
+        infob = run_parser_groups("C19", "c19b", ["builder"], big + [x for x in pp.specs("builder", "c19", "c19_fail") if x["expect"] == "fail"], out, jobs=1, harness_timeout_s=3000, mem_gb=44)
+        info["kani_wall_s"] = info.get("kani_wall_s", 0) + infob.get("kani_wall_s", 0)
+        specs = specs + big
     # token ranges reach the mask through SimpleVob::allow_range (parser.rs compute_bias, lexerspec token ranges)
     info2, svspecs = run_svob_only("C19", "c19s", ["k16_1_allow_range_w1", "k16_1_allow_range_w2", "k16_1_allow_range_w3"], out)
     try:
@@ -99,9 +105,9 @@ def run():
         out.inconclusive.append("exporter build failed: %s" % str(ex)[:300])
         st = {}
     cov = e1_coverage(out, [dict(harness=s["name"]) for s in specs[:6]],
-                      ["grammar_builder.rs negated_token_ranges loop (source slice)", "earley/lexerspec.rs LexemeSpec::contains_token", "toktrie/src/svob.rs SimpleVob::allow_range",
+                      ["grammar_builder.rs negated_token_ranges loop (source slice)", "earley/lexerspec.rs LexemeSpec::contains_token", "toktrie/src/svob.rs SimpleVob::allow_range", "earley/parser.rs ParserState::compute_bias post-walk statements (source slice)",
                        "lexeme automata of the regex / JSON / Lark corpus (E2-19.4)"],
-                      dict(ranges=3, marker_string_bytes=5), dict(tier=t, e2_marker=st, kani_wall_s=info.get("kani_wall_s", 0) + info2.get("kani_wall_s", 0)))
+                      dict(ranges=2 if t == "quick" else 3, marker_string_bytes=5), dict(tier=t, e2_marker=st, kani_wall_s=info.get("kani_wall_s", 0) + info2.get("kani_wall_s", 0)))
     cov["evaluations"] += st.get("queries", 0)
     cov["distinct_nontrivial"] += st.get("automata", 0)
     return finish("C19", out, tm, "model_checking", cov, ASSUMPTIONS)
